@@ -1,11 +1,12 @@
 (* non-vacuity: concrete instances of the hypotheses, evaluated on the model *)
 Example c05_ex_scheme_R3 : scheme_V4 2 3 16.
 Proof. right; left; repeat split. Qed.
-(* a 128-bit RC4 file: user "u", owner "o", static /ID: both passwords open it with the same key *)
-Example c05_ex_R3_opens :
-  let edk := kd_compute_parameters (base_ed 2 3 16 4294967292 [49;50;51] true) [117] [111] [] in
+(* a 40-bit RC4 file (R2: one MD5, one RC4 pass, cheap to evaluate): user "u", owner "o": both passwords open it with
+   the same 5-byte key, a wrong one does not *)
+Example c05_ex_R2_opens :
+  let edk := kd_compute_parameters (base_ed 1 2 5 4294967292 [49;50;51] true) [117] [111] [] in
   iso_open (to_iso (fst edk)) [117] = Some (snd edk) /\ iso_open (to_iso (fst edk)) [111] = Some (snd edk) /\
-  iso_open (to_iso (fst edk)) [120] = None /\ length (snd edk) = 16%nat.
+  iso_open (to_iso (fst edk)) [120] = None /\ length (snd edk) = 5%nat.
 Proof. vm_compute. repeat split. Qed.
 (* a 256-bit R5 file with the 68 random bytes 0..67 *)
 Example c05_ex_R5_opens :
